@@ -3,7 +3,10 @@
 On every run this scans every *.rs file under <REPO>/src (not src/verif, not verif.rs,
 items under #[cfg(test)] removed), splits it into `fn` items and, for every fn whose body
 CALLS fund_raw_transaction(...), emits the ordered list of actions of that body:
-  1 = call of lock_non_cardinal_outputs(   2 = call of fund_raw_transaction(
+  1 = call of lock_non_cardinal_outputs( that is an unconditional statement of the fn body
+      (brace depth 1, bare `receiver.lock_non_cardinal_outputs()?;`),
+  3 = any other call of it (inside if / match / closure / larger expression): does not count,
+  2 = call of fund_raw_transaction(
 (by textual position).  A helper whose body funds without locking first gets a leading 1
 only if it has exactly one caller and that caller locks before calling it.
 
@@ -191,11 +194,50 @@ def is_call(m, start):
     return re.search(r"\bfn\s+$", m[max(0, start - 40):start]) is None
 
 
+RECEIVER = re.compile(r"^((self|Self|" + IDENT + r")\s*(\.|::)\s*)*$")
+
+
+def unconditional_statement(body, start, end):
+    """The call body[start:end) (end = just after the opening parenthesis of its argument
+    list) is an expression STATEMENT of the function body itself, executed on every path that
+    reaches the text after it:
+      - brace depth 1 relative to the fn body (not inside if / match / loop / closure block),
+      - nothing but a receiver path (`wallet.`, `self.`, `Self::`) between the previous
+        `;` `{` `}` and the call  (so no `if c {`, `c &&`, `let x = if ..`, `|| ..`, `match`),
+      - followed, after its balanced argument list, by `;` or `?;`.
+    Anything else is reported as conditional (undecided counts as conditional)."""
+    depth = 0
+    for ch in body[:start]:
+        if ch == "{":
+            depth += 1
+        elif ch == "}":
+            depth -= 1
+    if depth != 1:
+        return False
+    k = start - 1
+    while k >= 0 and body[k] not in ";{}":
+        k -= 1
+    if not RECEIVER.match(body[k + 1:start].strip()):
+        return False
+    d, j = 0, end - 1
+    while j < len(body):
+        if body[j] == "(":
+            d += 1
+        elif body[j] == ")":
+            d -= 1
+            if d == 0:
+                break
+        j += 1
+    return re.match(r"\s*\??\s*;", body[j + 1:]) is not None
+
+
 def actions_of(body):
+    """1 = unconditional lock statement, 3 = lock call that is conditional / nested / part of
+    a larger expression (does NOT count as a lock: the Coq decoder drops it), 2 = fund call"""
     acts = []
     for r in LOCK_CALL.finditer(body):
         if is_call(body, r.start()):
-            acts.append((r.start(), 1))
+            acts.append((r.start(), 1 if unconditional_statement(body, r.start(), r.end()) else 3))
     for r in FUND_CALL.finditer(body):
         if is_call(body, r.start()):
             acts.append((r.start(), 2))
@@ -254,7 +296,9 @@ def wallet_fund_commands(g):
                     callers.append((c, sites))
             if len(callers) == 1:
                 c, sites = callers[0]
-                locks = [r.start() for r in LOCK_CALL.finditer(c["body"]) if is_call(c["body"], r.start())]
+                locks = [r.start() for r in LOCK_CALL.finditer(c["body"])
+                         if is_call(c["body"], r.start())
+                         and unconditional_statement(c["body"], r.start(), r.end())]
                 if locks and all(min(locks) < s for s in sites):
                     lst = [1] + lst
         entries.append((f["file"], f["name"], f["pos"], lst))
@@ -266,7 +310,7 @@ def wallet_fund_commands(g):
     entries.sort(key=lambda e: (e[0], e[1], e[2]))
     term = "[" + "; ".join("[" + "; ".join("%d" % a for a in lst) + "]" for _, _, _, lst in entries) + "]"
     prov = ("functions under src/ whose body calls fund_raw_transaction; per function its calls in textual "
-            "order, 1 = lock_non_cardinal_outputs, 2 = fund_raw_transaction: "
+            "order, 1 = unconditional lock_non_cardinal_outputs statement, 3 = conditional/nested lock call (does not count), 2 = fund_raw_transaction: "
             + ", ".join("%s::%s" % (fi, na) for fi, na, _, _ in entries))
     g.defs.append(("WALLET_FUND_COMMANDS", "list (list N)", term, prov))
     g.defs.append(("WALLET_FUND_COMMAND_COUNT", "N", "%d" % len(entries),
